@@ -1,9 +1,333 @@
-//! Stream `algo` (stub: filled in by the owner of this stream).
-#![allow(unused)]
+//! Stream `algo` — the graph algorithms of `grafeo_adapters::plugins::algorithms` (C19).
+//!
+//! Stateless lines that carry the whole graph:
+//!
+//!   algo <op> <n> <edges> [<source>]     edges = `u>v:w,u>v:w,…` or `-`; nodes are 0..n-1
+//!
+//! Every op builds a fresh `LpgStore` (nodes in id order, edges in list order, weight stored as
+//! the Float64 edge property `weight`), calls the real algorithm and prints the part of its result
+//! that the definition determines uniquely:
+//!
+//!   dijkstra, bellman_ford   distance map `v=d,…` sorted by node, `negcycle`, `-` when empty
+//!   sssp.agree               `agree` when dijkstra and bellman_ford return the same distance map
+//!   dijkstra.paths           `ok` when every `path_to` is a walk from the source whose cheapest cost is the distance
+//!   bfs, dfs                 the visited nodes, sorted (duplicates would show)
+//!   bfs.layers               `bfs_layers` as `0|1,2|3` (each layer sorted)
+//!   wcc, scc                 the partition `0,1|2|3,4` (classes sorted, ordered by least element)
+//!   topo                     `none`, or `valid` / `invalid` after checking the returned order here
+//!   kruskal                  `<#edges>:<total weight>`
+//!   prim                     the same, on a store that holds every listed edge in BOTH directions
+//!   prim.cover               `<#edges>` on the directed store
 use crate::util::*;
+use grafeo_adapters::plugins::algorithms::{
+    bellman_ford, bfs, bfs_layers, connected_components, dfs, dijkstra, kruskal, prim, strongly_connected_components,
+    topological_sort,
+};
+use grafeo_common::types::{NodeId, Value};
+use grafeo_core::graph::lpg::LpgStore;
+use std::collections::BTreeMap;
 
-pub fn generate(_seed: u64, _cases: usize, _out: &mut Vec<String>) {}
+type E = (u64, u64, i64);
 
-pub fn run(_args: &[&str]) -> String {
-    "bad-op".into()
+fn show_edges(es: &[E]) -> String {
+    if es.is_empty() {
+        return "-".into();
+    }
+    es.iter().map(|(u, v, w)| format!("{}>{}:{}", u, v, w)).collect::<Vec<_>>().join(",")
+}
+
+fn parse_edges(s: &str) -> Option<Vec<E>> {
+    if s == "-" || s.is_empty() {
+        return Some(vec![]);
+    }
+    s.split(',')
+        .map(|t| {
+            let (u, rest) = t.split_once('>')?;
+            let (v, w) = rest.split_once(':')?;
+            Some((u.parse().ok()?, v.parse().ok()?, w.parse().ok()?))
+        })
+        .collect()
+}
+
+// ------------------------------------------------------------------------------------ generator
+
+fn emit_graph(out: &mut Vec<String>, r: &mut Rng, n: u64, es: &[E]) {
+    let g = show_edges(es);
+    out.push(format!("algo wcc {} {}", n, g));
+    out.push(format!("algo scc {} {}", n, g));
+    out.push(format!("algo topo {} {}", n, g));
+    out.push(format!("algo kruskal {} {}", n, g));
+    // a source that is not a node once in a while (and always for the empty graph)
+    let sources: Vec<u64> = if n == 0 { vec![0] } else { (0..n).collect() };
+    for &s in &sources {
+        out.push(format!("algo dijkstra {} {} {}", n, g, s));
+        out.push(format!("algo bfs {} {} {}", n, g, s));
+        out.push(format!("algo dfs {} {} {}", n, g, s));
+        out.push(format!("algo prim.cover {} {} {}", n, g, s));
+    }
+    let mut picks = vec![0u64];
+    if n > 1 {
+        picks.push(r.below(n));
+        picks.push(n - 1);
+    }
+    if r.chance(1, 8) {
+        picks.push(n + r.below(3));
+    }
+    picks.dedup();
+    for s in picks {
+        out.push(format!("algo bfs.layers {} {} {}", n, g, s));
+        out.push(format!("algo sssp.agree {} {} {}", n, g, s));
+        out.push(format!("algo dijkstra.paths {} {} {}", n, g, s));
+        out.push(format!("algo prim {} {} {}", n, g, s));
+    }
+}
+
+fn emit_negative(out: &mut Vec<String>, n: u64, es: &[E]) {
+    let g = show_edges(es);
+    let sources: Vec<u64> = if n == 0 { vec![0] } else { (0..n).collect() };
+    for s in sources {
+        out.push(format!("algo bellman_ford {} {} {}", n, g, s));
+    }
+}
+
+pub fn generate(seed: u64, cases: usize, out: &mut Vec<String>) {
+    let mut r = Rng::new(seed ^ 0x616c676f);
+    // fixed edge cases first
+    let fixed: Vec<(u64, Vec<E>)> = vec![
+        (0, vec![]),                                                // empty graph
+        (1, vec![]),                                                // single node
+        (1, vec![(0, 0, 3)]),                                       // self-loop only
+        (2, vec![(0, 1, 5), (0, 1, 1)]),                            // two parallel edges, heavier first
+        (2, vec![(0, 1, 1), (0, 1, 5)]),                            // lighter first
+        (2, vec![(0, 1, 5), (1, 0, 1)]),                            // antiparallel pair
+        (2, vec![]),                                                // disconnected pair
+        (2, vec![(1, 0, 2)]),                                       // only an incoming edge at node 0
+        (4, vec![(0, 1, 1), (2, 3, 1)]),                            // two components
+        (3, vec![(0, 1, 0), (1, 2, 0), (2, 0, 0)]),                 // zero-weight cycle
+        (4, vec![(0, 1, 2), (0, 2, 2), (1, 3, 2), (2, 3, 2), (0, 3, 4)]), // equal-cost alternatives
+        (3, vec![(0, 1, 4), (1, 2, 4), (0, 2, 1), (2, 1, 1)]),      // detour is cheaper
+        (4, vec![(0, 1, 3), (1, 2, 3), (0, 2, 3), (0, 2, 1), (3, 3, 0)]),
+    ];
+    for (i, (n, es)) in fixed.iter().enumerate() {
+        out.push(format!("# case fixed{} seed {}", i, seed));
+        emit_graph(out, &mut r, *n, es);
+        emit_negative(out, *n, es);
+    }
+    let fixed_neg: Vec<(u64, Vec<E>)> = vec![
+        (1, vec![(0, 0, -1)]),                                      // negative self-loop
+        (3, vec![(0, 1, 1), (1, 2, -3), (2, 1, 2)]),                // reachable negative cycle
+        (3, vec![(0, 1, 1), (1, 2, -3), (2, 1, 3)]),                // zero cycle with a negative edge
+        (4, vec![(0, 1, 1), (2, 3, -2), (3, 2, 1)]),                // negative cycle not reachable from 0, 1
+        (3, vec![(0, 1, 5), (0, 2, 2), (2, 1, -4)]),                // negative edge beats the direct one
+    ];
+    for (i, (n, es)) in fixed_neg.iter().enumerate() {
+        out.push(format!("# case fixedneg{} seed {}", i, seed));
+        emit_negative(out, *n, es);
+    }
+    for c in 0..cases {
+        out.push(format!("# case {} seed {}", c, seed));
+        let n = match r.below(8) {
+            0 => r.below(3),
+            _ => r.range(2, 9),
+        };
+        let m = if n == 0 {
+            0
+        } else {
+            match r.below(4) {
+                0 => r.below(n + 1),      // sparse: isolated nodes, several components
+                1 => r.range(n, 2 * n),
+                _ => r.below(21),
+            }
+        }
+        .min(20);
+        let mut es: Vec<E> = Vec::new();
+        for _ in 0..m {
+            let (u, v) = match r.below(10) {
+                0 => {
+                    let u = r.below(n);
+                    (u, u) // self-loop
+                }
+                1 | 2 if !es.is_empty() => {
+                    let (a, b, _) = *r.pick(&es);
+                    if r.chance(1, 2) { (a, b) } else { (b, a) } // parallel / antiparallel
+                }
+                _ => (r.below(n), r.below(n)),
+            };
+            let w = match r.below(5) {
+                0 => 0,
+                1 => 3, // equal weights
+                _ => r.below(7) as i64,
+            };
+            es.push((u, v, w));
+        }
+        emit_graph(out, &mut r, n, &es);
+        // an acyclic variant: orient every edge along a random ranking, drop self-loops
+        let mut rank: Vec<u64> = (0..n).collect();
+        for i in (1..rank.len()).rev() {
+            let j = r.below(i as u64 + 1) as usize;
+            rank.swap(i, j);
+        }
+        let dag: Vec<E> = es
+            .iter()
+            .filter(|(u, v, _)| u != v)
+            .map(|&(u, v, w)| if rank[u as usize] < rank[v as usize] { (u, v, w) } else { (v, u, w) })
+            .collect();
+        out.push(format!("algo topo {} {}", n, show_edges(&dag)));
+        out.push(format!("algo scc {} {}", n, show_edges(&dag)));
+        // negative weights: (a) re-weighted by a potential, so no negative cycle exists;
+        // (b) arbitrary small negative weights (often a negative cycle)
+        let pot: Vec<i64> = (0..n).map(|_| r.below(6) as i64).collect();
+        let rew: Vec<E> = es.iter().map(|&(u, v, w)| (u, v, w + pot[u as usize] - pot[v as usize])).collect();
+        emit_negative(out, n, &rew);
+        let neg: Vec<E> = es.iter().map(|&(u, v, w)| (u, v, if r.chance(1, 4) { -(r.below(4) as i64) } else { w })).collect();
+        emit_negative(out, n, &neg);
+    }
+}
+
+// ------------------------------------------------------------------------------------ runner
+
+fn build(n: u64, es: &[E], both_directions: bool) -> LpgStore {
+    let store = LpgStore::new();
+    for i in 0..n {
+        let id = store.create_node(&["N"]);
+        assert_eq!(id.0, i, "node ids are expected to be 0..n-1 in creation order");
+    }
+    for &(u, v, w) in es {
+        let e = store.create_edge(NodeId::new(u), NodeId::new(v), "E");
+        store.set_edge_property(e, "weight", Value::Float64(w as f64));
+        if both_directions && u != v {
+            let e = store.create_edge(NodeId::new(v), NodeId::new(u), "E");
+            store.set_edge_property(e, "weight", Value::Float64(w as f64));
+        }
+    }
+    store
+}
+
+fn num(f: f64) -> String {
+    if f.fract() == 0.0 && f.abs() < 9.0e15 { format!("{}", f as i64) } else { format!("f{}", f) }
+}
+
+fn show_dist<'a>(it: impl Iterator<Item = (&'a NodeId, &'a f64)>) -> String {
+    let m: BTreeMap<u64, f64> = it.map(|(k, v)| (k.0, *v)).collect();
+    if m.is_empty() {
+        return "-".into();
+    }
+    m.iter().map(|(k, v)| format!("{}={}", k, num(*v))).collect::<Vec<_>>().join(",")
+}
+
+fn show_set(v: &[NodeId]) -> String {
+    let mut ids: Vec<u64> = v.iter().map(|x| x.0).collect();
+    ids.sort_unstable();
+    list_arg(&ids)
+}
+
+fn show_partition<'a>(it: impl Iterator<Item = (&'a NodeId, &'a u64)>) -> String {
+    let mut classes: BTreeMap<u64, Vec<u64>> = BTreeMap::new();
+    for (node, comp) in it {
+        classes.entry(*comp).or_default().push(node.0);
+    }
+    let mut cs: Vec<Vec<u64>> = classes.into_values().collect();
+    for c in cs.iter_mut() {
+        c.sort_unstable();
+    }
+    cs.sort();
+    if cs.is_empty() {
+        return "-".into();
+    }
+    cs.iter().map(|c| join(c)).collect::<Vec<_>>().join("|")
+}
+
+pub fn run(args: &[&str]) -> String {
+    let a = args.to_vec();
+    guarded(move || {
+        if a.len() < 3 {
+            return "bad-op".into();
+        }
+        let op = a[0];
+        let Some(n) = a[1].parse::<u64>().ok() else { return "bad-op".into() };
+        let Some(es) = parse_edges(a[2]) else { return "bad-op".into() };
+        if es.iter().any(|&(u, v, _)| u >= n || v >= n) {
+            return "bad-op".into();
+        }
+        let src = a.get(3).and_then(|s| s.parse::<u64>().ok());
+        let w = Some("weight");
+        match (op, src) {
+            ("dijkstra", Some(s)) => {
+                let st = build(n, &es, false);
+                show_dist(dijkstra(&st, NodeId::new(s), w).distances.iter())
+            }
+            ("bellman_ford", Some(s)) => {
+                let st = build(n, &es, false);
+                let r = bellman_ford(&st, NodeId::new(s), w);
+                if r.has_negative_cycle { "negcycle".into() } else { show_dist(r.distances.iter()) }
+            }
+            ("sssp.agree", Some(s)) => {
+                let st = build(n, &es, false);
+                let d = show_dist(dijkstra(&st, NodeId::new(s), w).distances.iter());
+                let r = bellman_ford(&st, NodeId::new(s), w);
+                let b = if r.has_negative_cycle { "negcycle".into() } else { show_dist(r.distances.iter()) };
+                if d == b { "agree".into() } else { format!("differ:{}/{}", d, b) }
+            }
+            ("dijkstra.paths", Some(s)) => {
+                let st = build(n, &es, false);
+                let r = dijkstra(&st, NodeId::new(s), w);
+                let mut targets: Vec<u64> = r.distances.keys().map(|k| k.0).collect();
+                targets.sort_unstable();
+                for t in targets {
+                    let Some(path) = r.path_to(NodeId::new(s), NodeId::new(t)) else { return format!("no-path:{}", t) };
+                    if path.first().map(|x| x.0) != Some(s) || path.last().map(|x| x.0) != Some(t) {
+                        return format!("bad-ends:{}", t);
+                    }
+                    let mut cost = 0i64;
+                    for p in path.windows(2) {
+                        let best = es.iter().filter(|&&(u, v, _)| u == p[0].0 && v == p[1].0).map(|e| e.2).min();
+                        match best {
+                            Some(c) => cost += c,
+                            None => return format!("not-an-edge:{}", t),
+                        }
+                    }
+                    if Some(cost as f64) != r.distance_to(NodeId::new(t)) {
+                        return format!("cost-differs:{}", t);
+                    }
+                }
+                "ok".into()
+            }
+            ("bfs", Some(s)) => show_set(&bfs(&build(n, &es, false), NodeId::new(s))),
+            ("dfs", Some(s)) => show_set(&dfs(&build(n, &es, false), NodeId::new(s))),
+            ("bfs.layers", Some(s)) => {
+                let ls = bfs_layers(&build(n, &es, false), NodeId::new(s));
+                if ls.is_empty() { "-".into() } else { ls.iter().map(|l| show_set(l)).collect::<Vec<_>>().join("|") }
+            }
+            ("wcc", None) => show_partition(connected_components(&build(n, &es, false)).iter()),
+            ("scc", None) => show_partition(strongly_connected_components(&build(n, &es, false)).iter()),
+            ("topo", None) => match topological_sort(&build(n, &es, false)) {
+                None => "none".into(),
+                Some(order) => {
+                    let mut pos: BTreeMap<u64, usize> = BTreeMap::new();
+                    for (i, v) in order.iter().enumerate() {
+                        pos.insert(v.0, i);
+                    }
+                    let perm = order.len() as u64 == n && pos.len() as u64 == n && pos.keys().all(|&k| k < n);
+                    if perm && es.iter().all(|(u, v, _)| pos[u] < pos[v]) { "valid".into() } else { "invalid".into() }
+                }
+            },
+            ("kruskal", None) => {
+                let r = kruskal(&build(n, &es, false), w);
+                let sum: f64 = r.edges.iter().map(|e| e.3).sum();
+                if sum != r.total_weight {
+                    return "inconsistent".into();
+                }
+                format!("{}:{}", r.edges.len(), num(r.total_weight))
+            }
+            ("prim", Some(s)) => {
+                let r = prim(&build(n, &es, true), w, Some(NodeId::new(s)));
+                format!("{}:{}", r.edges.len(), num(r.total_weight))
+            }
+            ("prim.cover", Some(s)) => {
+                let r = prim(&build(n, &es, false), w, Some(NodeId::new(s)));
+                format!("{}", r.edges.len())
+            }
+            _ => "bad-op".into(),
+        }
+    })
 }
